@@ -3,6 +3,7 @@ import ImmuModel.Tx.Concrete
 import ImmuModel.Tx.Entry
 import ImmuModel.Store.Proofs
 import ImmuModel.Store.Prover
+import ImmuModel.Client.Flow
 namespace Driver.C01
 open ImmuModel ImmuModel.Tx ImmuModel.Store
 
@@ -79,7 +80,41 @@ def stepSt (st : St) : List String → St × String
     | _, _ => (st, "bad-op")
   | _ => (st, "bad-op")
 
+def ref? (s : String) : Option (Option Client.RefBy) :=
+  if s == "nil" then some none else
+  match s.splitOn ":" with
+  | [tx, atx, md] => match tx.toNat?, atx.toNat?, Bytes.ofHex md with
+    | some tx, some atx, some md => some (some ⟨tx, atx, md⟩)
+    | _, _, _ => none
+  | _ => none
+
+def incl? (s : String) : Option (Merkle.HProof Digest) :=
+  match s.splitOn ":" with
+  | [l, w, ts] => match l.toInt?, w.toInt?, dgs? ts with
+    | some l, some w, some ts => some ⟨l, w, ts⟩
+    | _, _, _ => none
+  | _ => none
+
+def cget : List String → String
+  | [stTx, stHash, reqKey, atTx, eKey, eVal, eMd, eTx, ref, ver, incl, sh, th, ip, cp, tbl, lip, lp, lap] =>
+    match stTx.toNat?, dg? stHash, Bytes.ofHex reqKey, atTx.toNat?, Bytes.ofHex eKey, Bytes.ofHex eVal, Bytes.ofHex eMd,
+          eTx.toNat?, ref? ref, ver.toNat?, incl? incl with
+    | some stTx, some stHash, some reqKey, some atTx, some eKey, some eVal, some eMd, some eTx, some ref, some ver, some incl =>
+      match hdr? sh, hdr? th, dgs? ip, dgs? cp, dg? tbl, dgs? lip, lp? lp, lap? lap with
+      | some sh, some th, some ip, some cp, some tbl, some lip, some lp, some lap =>
+        let r : Client.GetResp Digest := ⟨⟨eKey, eVal, eMd, eTx, ref⟩, ver, incl, ⟨sh, th, ip, cp, tbl, lip, lp, lap⟩⟩
+        match Client.verifiedGet shaHs (fun _ => true) ⟨stTx, stHash⟩ reqKey atTx r with
+        | none => "panic"
+        | some (.ok ns) => s!"ok {ns.txId} {hexD ns.txHash}"
+        | some (.error .corrupted) => "err:corrupted"
+        | some (.error .unsupportedVersion) => "err:version"
+        | some (.error .signature) => "err:signature"
+      | _, _, _, _, _, _, _, _ => "bad-op"
+    | _, _, _, _, _, _, _, _, _, _, _ => "bad-op"
+  | _ => "bad-op"
+
 def step : List String → String
+  | "cget" :: rest => cget rest
   | ["alh", h] => match hdr? h with
     | some (some h) => match alh shaHs h with | some a => hexD a | none => "panic"
     | _ => "bad-op"
